@@ -834,8 +834,8 @@ func init() {
 			}
 			// other writers of port
 			for _, f := range c.P.ModFns {
-				if f == m.An.fn || f == cdp {
-					continue
+				if f == m.An.fn || f == cdp || m.IsInlined(f) {
+					continue // helpers of the state machine are walked in place: their stores are on the paths checked above
 				}
 				for _, b := range f.Blocks {
 					for _, ins := range b.Instrs {
